@@ -181,3 +181,271 @@ Example C14_nonvacuous_affine :
 Proof.
   unfold stats_wf. repeat split; vm_compute; try reflexivity; intro H; discriminate H.
 Qed.
+
+(* ===================================================================================================================== *)
+(* Extension: the FLOATING-POINT clauses, in the standard model of binary64 arithmetic (Flocq) and for the executable   *)
+(* PrimFloat twin of the scalar code of stats.cpp (C14_FloatDefs.v / C14_Float.v).                                      *)
+(*   rnd = round radix2 (FLT_exp (-1074) 53) ZnearestE, u = 2^-53, eta = 2^-1075, g n = (1 + u)^n - 1,                  *)
+(*   fmt = representable, NU t = (t = 0 or |t| >= 2^-1022), FR = real value of a primitive float, fin = is_finite.      *)
+(* ===================================================================================================================== *)
+(* Floats / Flocq.IEEE754 are deliberately not imported: Print Assumptions then prints the primitive operations with their
+   module names (PrimFloat.sub, FloatAxioms.sub_spec, ...), which is what the axiom gate whitelists *)
+From Coq Require Import Reals Permutation Lra Lia.
+From Flocq Require Import Core.
+From LNGen Require Import Src_dstatsf.
+From LN Require Import C14_FloatDefs C14_Float.
+Local Open Scope R_scope.
+
+(* 11. the bridge: a primitive binary64 operation on finite operands with a finite result IS the rounding of the exact
+       result, and it is finite whenever that rounding is below 2^1024 *)
+Theorem C14_fl_bridge : forall a b, fin a -> fin b ->
+  ((fin (PrimFloat.add a b) -> FR (PrimFloat.add a b) = rnd (FR a + FR b)) /\
+   (Rabs (rnd (FR a + FR b)) < bpow radix2 1024 -> fin (PrimFloat.add a b))) /\
+  ((fin (PrimFloat.sub a b) -> FR (PrimFloat.sub a b) = rnd (FR a - FR b)) /\
+   (Rabs (rnd (FR a - FR b)) < bpow radix2 1024 -> fin (PrimFloat.sub a b))) /\
+  ((fin (PrimFloat.mul a b) -> FR (PrimFloat.mul a b) = rnd (FR a * FR b)) /\
+   (Rabs (rnd (FR a * FR b)) < bpow radix2 1024 -> fin (PrimFloat.mul a b))) /\
+  (FR b <> 0 ->
+   (fin (PrimFloat.div a b) -> FR (PrimFloat.div a b) = rnd (FR a / FR b)) /\
+   (Rabs (rnd (FR a / FR b)) < bpow radix2 1024 -> fin (PrimFloat.div a b))) /\
+  fmt (FR a) /\ (fin (fmax_cpp a b) /\ FR (fmax_cpp a b) = Rmax (FR a) (FR b)).
+Proof.
+  intros a b Fa Fb. repeat split; try (now apply fin_add); try (now apply fin_sub); try (now apply fin_mul);
+    try (now apply fin_div); try apply FR_fmt; now apply fmax_cpp_fin.
+Qed.
+Print Assumptions C14_fl_bridge.
+
+(* 12. round trip in the standard model: for representable x and offset and ANY multiplier in (0, 2^1022] with the
+       divisor computed as rnd(1 / mul) -- as done() does -- up-scaling the scaled value returns x up to
+       (5 |x| + 4 |offset|) u (1 + 3u) plus the underflow term 2^-1074 (mul + 1); no other assumption (underflow allowed) *)
+Theorem C14_fl_roundtrip_real : forall x off mul, fmt x -> fmt off -> 0 < mul -> mul <= bpow radix2 1022 ->
+  Rabs (rt_upscale (rt_scale x off mul) off mul - x)
+  <= (5 * Rabs x + 4 * Rabs off) * (u * (1 + 3 * u)) + 2 * eta * (mul + 1).
+Proof. exact roundtrip_R. Qed.
+Print Assumptions C14_fl_roundtrip_real.
+
+(* 13. ... for the executable twin and every statistics record the twin of done() produces (any accumulated history, any
+       flags, each of the four modes): if no input / intermediate result of upscale(scale(x)) overflows (chain_finite,
+       an executable test) the real value of the result is within the same bound of x *)
+Theorem C14_fl_roundtrip : forall eps i esize eflag a m x, fin eps -> 0 < FR eps ->
+  let s := fdone eps i esize eflag a in
+  chain_finite m s x = true -> FR (f_mul m s) <= bpow radix2 1022 ->
+  Rabs (FR (fupscale_one m s (fscale_one m s x)) - FR x) <= rt_bound (FR x) (FR (f_off m s)) (FR (f_mul m s)).
+Proof. exact roundtrip_fdone. Qed.
+Print Assumptions C14_fl_roundtrip.
+
+(* ... and for ANY record whose divisor is 1.0 / multiplier in binary64 (e.g. statistics read back from the library) *)
+Theorem C14_fl_roundtrip_any_stats : forall m s x, denorm_ok m s -> chain_finite m s x = true ->
+  0 < FR (f_mul m s) -> FR (f_mul m s) <= bpow radix2 1022 ->
+  Rabs (FR (fupscale_one m s (fscale_one m s x)) - FR x) <= rt_bound (FR x) (FR (f_off m s)) (FR (f_mul m s)).
+Proof. exact roundtrip_twin. Qed.
+Print Assumptions C14_fl_roundtrip_any_stats.
+
+(* 14. the (de)normalisers of every record of done(): div = 1.0 / mul bit for bit, and mul > 0 as soon as it is finite *)
+Theorem C14_fl_denormalisers : forall eps i esize eflag a m,
+  denorm_ok m (fdone eps i esize eflag a) /\
+  (fin eps -> 0 < FR eps -> fin (f_mul m (fdone eps i esize eflag a)) -> 0 < FR (f_mul m (fdone eps i esize eflag a))).
+Proof. intros. split; [apply fdone_denorm_ok|apply fdone_mul_pos]. Qed.
+Print Assumptions C14_fl_denormalisers.
+
+(* 15. min-max scaling in floating point: the minimum is mapped to 0 exactly, the maximum into [1 - u, 1] (when the range
+       is not below the guard), and every value of [min, max] INTO [0, 1] -- no rounding slack *)
+Theorem C14_fl_minmax_real : forall mn mx eps x, 0 < eps -> eps <= bpow radix2 1022 -> rnd (mx - mn) <= bpow radix2 1022 ->
+  rt_scale mn mn (mm_mul mn mx eps) = 0 /\
+  (eps <= rnd (mx - mn) -> 1 - u <= rt_scale mx mn (mm_mul mn mx eps) <= 1) /\
+  (mn <= x <= mx -> 0 <= rt_scale x mn (mm_mul mn mx eps) <= 1).
+Proof.
+  intros mn mx eps x Pe Le L. split; [apply minmax_min_R|]. split; intros H.
+  - now apply minmax_max_R.
+  - now apply minmax_range_R.
+Qed.
+Print Assumptions C14_fl_minmax_real.
+
+Theorem C14_fl_minmax : forall s eps x,
+  fin eps -> 0 < FR eps -> FR eps <= bpow radix2 1022 ->
+  f_mul_range s = fmax_cpp (PrimFloat.sub (f_max s) (f_min s)) eps ->
+  f_div_range s = PrimFloat.div fone (f_mul_range s) -> fin (f_div_range s) ->
+  fin (f_min s) -> fin (f_max s) -> fin x ->
+  fin (PrimFloat.sub (f_max s) (f_min s)) -> FR (PrimFloat.sub (f_max s) (f_min s)) <= bpow radix2 1022 ->
+  FR (f_min s) <= FR x <= FR (f_max s) ->
+  let y := fscale_one MMinMax s x in
+  fin y /\ 0 <= FR y <= 1 /\
+  (FR x = FR (f_min s) -> FR y = 0) /\
+  (FR x = FR (f_max s) -> FR eps <= FR (PrimFloat.sub (f_max s) (f_min s)) -> 1 - u <= FR y).
+Proof. exact minmax_twin. Qed.
+Print Assumptions C14_fl_minmax.
+
+(* ... whose structural hypotheses hold for the records of done() in the branch N > 1 of an enabled column *)
+Theorem C14_fl_minmax_structure : forall eps i esize eflag a,
+  src_c14_disabled i esize eflag = false -> src_c14_many (fa_n a) = true ->
+  let s := fdone eps i esize eflag a in
+  f_min s = fa_min a /\ f_max s = fa_max a /\
+  f_mul_range s = fmax_cpp (PrimFloat.sub (f_max s) (f_min s)) eps /\
+  f_div_range s = PrimFloat.div fone (f_mul_range s) /\
+  f_mul_stdev s = fmax_cpp (f_stdev s) eps /\
+  f_div_stdev s = PrimFloat.div fone (f_mul_stdev s).
+Proof. exact fdone_many_structure. Qed.
+Print Assumptions C14_fl_minmax_structure.
+
+(* 16. summation in ANY order (Eigen's reduction order is unspecified): a tree whose leaves are a permutation of n
+       representable numbers evaluates within g (n - 1) * sum |p_i| of the exact sum; g n <= n u / (1 - n u) *)
+Theorem C14_fl_sum_any_order : forall t ps, Forall fmt ps -> Permutation (sleaves t) ps ->
+  Rabs (sfl t - rsum ps) <= g (length ps - 1) * rabssum ps.
+Proof. exact sum_any_order. Qed.
+Print Assumptions C14_fl_sum_any_order.
+
+Theorem C14_fl_gamma : forall n, INR n * u < 1 -> g n <= INR n * u / (1 - INR n * u).
+Proof. exact g_le_gamma. Qed.
+Print Assumptions C14_fl_gamma.
+
+(* 17. nano::upscale, one output with C input columns: bias' = rnd(rnd(rnd(D + b) - rnd tbx) / tw) where D is the sum, in
+       any order, of the products rnd(w_j * rnd(fbx_j)); without underflow it is within
+       g (C + 4) * (sum |w_j fbx_j| + |b| + |tbx|) / |tw| of the exact (sum w_j fbx_j + b - tbx) / tw *)
+Theorem C14_fl_up_bias : forall t w fbx b tbx tw,
+  length w = length fbx -> (1 <= length w)%nat ->
+  Permutation (sleaves t) (prods w fbx) -> NU_prods w fbx -> fmt b -> NU tbx -> tw <> 0 ->
+  NU (rnd (rnd (sfl t + b) - rnd tbx) / tw) ->
+  let M := rabssum (xprods w fbx) + Rabs b + Rabs tbx in
+  Rabs (rnd (rnd (rnd (sfl t + b) - rnd tbx) / tw) - (rsum (xprods w fbx) + b - tbx) / tw)
+  <= g (length w + 4) * (M / Rabs tw).
+Proof. exact up_bias_R. Qed.
+Print Assumptions C14_fl_up_bias.
+
+(* 18. one up-scaled weight W' = (W / tw) * fw: relative error g 2 = 2u + u^2 (standard model and twin) *)
+Theorem C14_fl_up_weight : forall w tw fw, tw <> 0 -> NU (w / tw) -> NU (rnd (w / tw) * fw) ->
+  Rabs (rnd (rnd (w / tw) * fw) - w / tw * fw) <= g 2 * Rabs (w / tw * fw).
+Proof. exact up_weight_R. Qed.
+Print Assumptions C14_fl_up_weight.
+
+Theorem C14_fl_up_weight_twin : forall fm tm f t w,
+  fin w -> fin (fmk_w tm t) -> fin (fmk_w fm f) -> FR (fmk_w tm t) <> 0 ->
+  fin (PrimFloat.div w (fmk_w tm t)) -> fin (fup_w fm tm f t w) ->
+  NU (FR w / FR (fmk_w tm t)) -> NU (rnd (FR w / FR (fmk_w tm t)) * FR (fmk_w fm f)) ->
+  Rabs (FR (fup_w fm tm f t w) - FR w / FR (fmk_w tm t) * FR (fmk_w fm f))
+  <= g 2 * Rabs (FR w / FR (fmk_w tm t) * FR (fmk_w fm f)).
+Proof. exact up_weight_twin. Qed.
+Print Assumptions C14_fl_up_weight_twin.
+
+(* 19. the polymorphic shapes instantiated by the twin are, at type Z, the expressions translated from stats.cpp *)
+Theorem C14_fl_shapes_are_source :
+  (forall x mean mn mx dr mr ds ms : Z,
+     src_c14f_scale_mean x mean mn mx dr mr ds ms = scale_shape zops MMean x mean mn dr ds /\
+     src_c14f_scale_minmax x mean mn mx dr mr ds ms = scale_shape zops MMinMax x mean mn dr ds /\
+     src_c14f_scale_standard x mean mn mx dr mr ds ms = scale_shape zops MStandard x mean mn dr ds /\
+     src_c14f_upscale_mean x mean mn mx dr mr ds ms = upscale_shape zops MMean x mean mn mr ms /\
+     src_c14f_upscale_minmax x mean mn mx dr mr ds ms = upscale_shape zops MMinMax x mean mn mr ms /\
+     src_c14f_upscale_standard x mean mn mx dr mr ds ms = upscale_shape zops MStandard x mean mn mr ms) /\
+  (forall one zero mx mn sd sum eps dN : Z,
+     src_c14f_var one zero mx mn sd sum eps dN = var_shape zops one zero sd sum dN /\
+     src_c14f_mean one zero mx mn sd sum eps dN = mean_shape zops sum dN /\
+     src_c14f_div_range one zero mx mn sd sum eps dN = div_range_shape zops one mx mn eps /\
+     src_c14f_mul_range one zero mx mn sd sum eps dN = mul_range_shape zops mx mn eps /\
+     src_c14f_div_stdev one zero mx mn sd sum eps dN = div_stdev_shape zops one sd eps /\
+     src_c14f_mul_stdev one zero mx mn sd sum eps dN = mul_stdev_shape zops sd eps) /\
+  (forall sum sq v : Z, src_c14f_upd_sum sum v = upd_sum_shape zops sum v /\ src_c14f_upd_sq sq v = upd_sq_shape zops sq v) /\
+  (forall one zero mean mn dr ds : Z,
+     src_c14f_mk_w_mean mean mn dr ds = mk_w_shape one MMean dr ds /\
+     src_c14f_mk_w_minmax mean mn dr ds = mk_w_shape one MMinMax dr ds /\
+     src_c14f_mk_w_standard mean mn dr ds = mk_w_shape one MStandard dr ds /\
+     src_c14f_mk_b_mean mean mn dr ds = mk_b_shape zops zero MMean mean mn dr ds /\
+     src_c14f_mk_b_minmax mean mn dr ds = mk_b_shape zops zero MMinMax mean mn dr ds /\
+     src_c14f_mk_b_standard mean mn dr ds = mk_b_shape zops zero MStandard mean mn dr ds) /\
+  (forall d b tb tw w fw : Z,
+     src_c14f_up_bias_div (src_c14f_up_bias_num d b tb) tw = up_b_shape zops d b tb tw /\
+     src_c14f_up_w_mul (src_c14f_up_w_div w tw) fw = up_w_shape zops w tw fw).
+Proof. exact shapes_are_source. Qed.
+Print Assumptions C14_fl_shapes_are_source.
+
+(* 20. no NaN: every statistic of an enabled column with N > 1 samples is finite, the deviation is >= 0 and the
+       (de)normalisers are > 0, whenever the two running sums and the two intermediates of the one-pass variance that can
+       overflow are finite ([var_finite], an executable test) -- the clamp std::max(., 0.0) makes the square root safe for
+       EVERY such history (this is the clause that failed before the fix 4a52c08: stdev = NaN for constant columns) *)
+Theorem C14_fl_stats_finite : forall eps i esize eflag a,
+  fin eps -> bpow radix2 (-1022) <= FR eps -> (2 <= fa_n a < 2 ^ 53)%Z -> var_finite a = true ->
+  fin (fa_min a) -> fin (fa_max a) -> fin (PrimFloat.sub (fa_max a) (fa_min a)) ->
+  let s := fdone eps i esize eflag a in
+  fin (f_min s) /\ fin (f_max s) /\ fin (f_mean s) /\ fin (f_stdev s) /\ fin (f_div_range s) /\ fin (f_mul_range s) /\
+  fin (f_div_stdev s) /\ fin (f_mul_stdev s) /\ 0 <= FR (f_stdev s) /\
+  0 < FR (f_mul_range s) /\ 0 < FR (f_mul_stdev s) /\ 0 < FR (f_div_range s) /\ 0 < FR (f_div_stdev s).
+Proof. exact fdone_finite. Qed.
+Print Assumptions C14_fl_stats_finite.
+
+(* 21. clause 3 in floating point, one output with C input columns (cs: weight, offset, divisor, raw input per column): the
+       converted model -- W' and b' AS COMPUTED by nano::upscale (any reduction order), applied to raw inputs with an exact
+       dot product -- is within  g 2 * sum |W'ex_j x_j| + g (C + 4) * (sum |w_j off_j div_j| + |b| + |toff tdv|) / |tdv|  of
+       the exact up-scaling of the exact original model on the exactly scaled inputs, when nothing underflows *)
+Theorem C14_fl_prediction : forall t cs b toff tdv,
+  (1 <= length cs)%nat -> Permutation (sleaves t) (prods (ws cs) (fbxs cs)) -> NU_prods (ws cs) (fbxs cs) ->
+  fmt b -> NU (- toff * tdv) -> tdv <> 0 -> Forall (NU_w tdv) cs ->
+  NU (rnd (rnd (sfl t + b) - rnd (- toff * tdv)) / tdv) ->
+  let bfl := rnd (rnd (rnd (sfl t + b) - rnd (- toff * tdv)) / tdv) in
+  let M := rabssum (xprods (ws cs) (fbxs cs)) + Rabs b + Rabs (- toff * tdv) in
+  Rabs (pred_fl tdv cs bfl - pred_ex cs b toff tdv)
+  <= g 2 * rsum (map (fun c => Rabs (wex tdv c * c_x c)) cs) + g (length cs + 4) * (M / Rabs tdv).
+Proof. exact prediction_R. Qed.
+Print Assumptions C14_fl_prediction.
+
+(* ---- non-vacuity of the extension ------------------------------------------------------------------------------------- *)
+(* ex_fcol = [1; nan; 3; 5] as binary64 values, ex_feps = 1e-8, ex_fst = the twin's statistics of that column (C14_FloatDefs.v):
+   the twin computes the statistics of the exact example above, the hypotheses of 13 / 14 / 15 hold for it, and the round
+   trip of 5 under standard scaling is exact here *)
+Example C14_fl_nonvacuous_twin :
+  ex_fst = mkfstats 3 fl1 fl5 fl3 fl2 fl025 fl4 fl05 fl2 /\
+  fin ex_feps /\ 0 < FR ex_feps /\ FR ex_feps <= bpow radix2 1022 /\
+  chain_finite MStandard ex_fst fl5 = true /\ chain_finite MMinMax ex_fst fl5 = true /\
+  FR (f_mul MStandard ex_fst) = 2 /\ FR (f_mul MStandard ex_fst) <= bpow radix2 1022 /\
+  denorm_ok MStandard ex_fst /\
+  fscale_one MStandard ex_fst fl5 = fl1 /\ fupscale_one MStandard ex_fst fl1 = fl5 /\
+  fscale_one MMinMax ex_fst fl1 = fzero /\ fscale_one MMinMax ex_fst fl5 = fl1 /\
+  fscale_one MMean ex_fst flnan = fzero /\
+  src_c14_disabled 0 1 1 = false /\ src_c14_many (fa_n (faccumulate (facc0 ex_fbig) ex_fcol)) = true /\
+  fin (PrimFloat.sub (f_max ex_fst) (f_min ex_fst)) /\ FR (PrimFloat.sub (f_max ex_fst) (f_min ex_fst)) = 4 /\
+  fin (f_div_range ex_fst) /\ FR (f_min ex_fst) <= FR fl3 <= FR (f_max ex_fst) /\
+  (* hypotheses of 20 *)
+  bpow radix2 (-1022) <= FR ex_feps /\ (2 <= fa_n (faccumulate (facc0 ex_fbig) ex_fcol) < 2 ^ 53)%Z /\
+  var_finite (faccumulate (facc0 ex_fbig) ex_fcol) = true /\
+  fin (fa_min (faccumulate (facc0 ex_fbig) ex_fcol)) /\ fin (fa_max (faccumulate (facc0 ex_fbig) ex_fcol)) /\
+  fin (PrimFloat.sub (fa_max (faccumulate (facc0 ex_fbig) ex_fcol)) (fa_min (faccumulate (facc0 ex_fbig) ex_fcol))).
+Proof.
+  assert (B : 4 <= bpow radix2 1022) by (change 4 with (bpow radix2 2); apply bpow_le; discriminate).
+  destruct ex_float_values as (E1 & E2 & E3 & E4 & E5 & Ee).
+  repeat split; try (vm_compute; reflexivity); try apply Ee; try (vm_compute; intro H; discriminate H).
+  - eapply Rle_trans; [apply Ee|lra].
+  - change (f_mul MStandard ex_fst) with fl2. exact E2.
+  - change (f_mul MStandard ex_fst) with fl2. rewrite E2. lra.
+  - change (PrimFloat.sub (f_max ex_fst) (f_min ex_fst)) with fl4. exact E4.
+  - change (f_min ex_fst) with fl1. rewrite E1, E3. lra.
+  - change (f_max ex_fst) with fl5. rewrite E5, E3. lra.
+  - exact ex_feps_normal.
+Qed.
+
+(* the hypotheses of 12 / 15 / 16 / 17 / 18 are satisfiable: x = 4, offset = 1, mul = 2; one column with w = fbx = b = tbx = tw = 1 *)
+Example C14_fl_nonvacuous_real :
+  fmt 4 /\ fmt 1 /\ 0 < 2 <= bpow radix2 1022 /\ rnd (4 - 2) <= bpow radix2 1022 /\ 2 <= 3 <= 4 /\
+  (let t := SLeaf 1 in let w := [1] in let fbx := [1] in
+   length w = length fbx /\ (1 <= length w)%nat /\ Permutation (sleaves t) (prods w fbx) /\ NU_prods w fbx /\ fmt 1 /\
+   NU 1 /\ 1 <> 0 /\ NU (rnd (rnd (sfl t + 1) - rnd 1) / 1) /\ Forall fmt (prods w fbx)) /\
+  NU (1 / 1) /\ NU (rnd (1 / 1) * 1) /\ INR 20 * u < 1 /\
+  (* 21: one column (w, off, div, x) = (1, -1, 1, 4), b = 1, toff = -1, tdv = 1: fbxs = [1], tbx = 1 as above *)
+  (let cs := [mkpcol 1 (-1) 1 4] in
+   ws cs = [1] /\ fbxs cs = [1] /\ - -1 * 1 = 1 /\ Forall (NU_w 1) cs /\ pred_ex cs 1 (-1) 1 = 5).
+Proof.
+  assert (F1 : fmt 1) by exact fmt_1.
+  assert (F2 : fmt 2) by (change 2 with (bpow radix2 1); apply fmt_bpow; discriminate).
+  assert (F4 : fmt 4) by (change 4 with (bpow radix2 2); apply fmt_bpow; discriminate).
+  assert (N1 : NU 1) by (change 1 with (bpow radix2 0); apply NU_bpow; discriminate).
+  assert (B2 : 2 <= bpow radix2 1022) by (change 2 with (bpow radix2 1); apply bpow_le; discriminate).
+  assert (R1 : rnd 1 = 1) by (apply rnd_id, F1).
+  assert (P : prods [1] [1] = [1]) by (simpl; rewrite R1, Rmult_1_l, R1; reflexivity).
+  assert (D1 : 1 / 1 = 1) by (unfold Rdiv; rewrite Rinv_1; ring).
+  split; [exact F4|]. split; [exact F1|]. split; [lra|]. split.
+  { replace (4 - 2) with 2 by ring. rewrite (rnd_id _ F2). exact B2. }
+  split; [lra|]. split.
+  { cbv zeta. simpl sleaves. simpl sfl. rewrite P. repeat split; auto.
+    - rewrite R1, Rmult_1_l. exact N1.
+    - replace (1 + 1) with 2 by ring. rewrite (rnd_id _ F2), R1. replace (2 - 1) with 1 by ring. rewrite R1, D1. exact N1. }
+  rewrite D1, R1, Rmult_1_l. split; [exact N1|]. split; [exact N1|].
+  split; [rewrite u_val; simpl; lra|].
+  cbv zeta. unfold ws, fbxs, pred_ex. simpl. repeat split; try (f_equal; ring); try lra.
+  constructor; [|constructor]. unfold NU_w. simpl. rewrite D1, R1, Rmult_1_l. split; exact N1.
+Qed.
